@@ -3213,7 +3213,7 @@ impl fmt::Display for XmlNamespace {
         } else {
             "xmlns".to_string()
         };
-        write!(f, "{}=\"{}\"", name.as_str(), self.namespace_name.as_str())
+        write!(f, "{}={}", name.as_str(), escape(self.namespace_name.as_str()))
     }
 }
 
